@@ -59,6 +59,12 @@ SUBSET_INTRO = [
          ensures=["len(result) == 1 + len(Attr(self.dataset, 'all_wrapper_types'))", "result[0] == type(self)",
                   "forall(lambda k: implies(0 <= k and k < len(Attr(self.dataset, 'all_wrapper_types')), "
                   "result[k + 1] == Attr(self.dataset, 'all_wrapper_types')[k]))"]),
+    dict(target=f"{FS}::KDSubset.get_wrappers_of_type", self=SUBSET_SELF, params={"wrapper_type": VAL}, consts={"k": INT},
+         defs={"LOW": ((), "CallAttr(self.dataset, 'get_wrappers_of_type', wrapper_type)")},
+         ensures=["implies(type(self) == wrapper_type, len(result) == 1 + len(LOW) and result[0] == self and "
+                  "implies(0 <= k and k < len(LOW), result[k + 1] == LOW[k]))",
+                  "implies(not (type(self) == wrapper_type), len(result) == len(LOW) and "
+                  "implies(0 <= k and k < len(LOW), result[k] == LOW[k]))"]),
     dict(target=f"{FS}::KDSubset.worker_init_fn", self=SUBSET_SELF, params={"rank": INT},
          ghost={"g_worker_init_fn": (INT, "0")}, ensures=["g_worker_init_fn == 1"]),
 ]
@@ -142,6 +148,13 @@ WRAPPER = [
                   "result[k + 1] == Attr(self.dataset, 'all_wrappers')[k]))"]),
     dict(target=f"{FW}::KDWrapper.all_wrapper_types", self=WRAP_SELF,
          ensures=["len(result) == 1 + len(Attr(self.dataset, 'all_wrapper_types'))", "result[0] == type(self)"]),
+    dict(target=f"{FW}::KDWrapper.get_wrappers_of_type", self=WRAP_SELF, params={"wrapper_type": VAL}, consts={"k": INT},
+         defs={"LOW": ((), "CallAttr(self.dataset, 'get_wrappers_of_type', wrapper_type)")},
+         # own layer first (iff its type matches), then every match of the layers below
+         ensures=["implies(type(self) == wrapper_type, len(result) == 1 + len(LOW) and result[0] == self and "
+                  "implies(0 <= k and k < len(LOW), result[k + 1] == LOW[k]))",
+                  "implies(not (type(self) == wrapper_type), len(result) == len(LOW) and "
+                  "implies(0 <= k and k < len(LOW), result[k] == LOW[k]))"]),
     dict(target=f"{FW}::KDWrapper.dispose", self=WRAP_SELF, ghost={"g_dispose": (INT, "0")}, ensures=["g_dispose == 1"]),
     dict(target=f"{FW}::KDWrapper.worker_init_fn", self=WRAP_SELF, params={"rank": INT},
          ghost={"g_worker_init_fn": (INT, "0")}, ensures=["g_worker_init_fn == 1"]),
